@@ -6,7 +6,28 @@ package pfcp
 // never part of the shipped tree). They are called by the simulator's root goroutine
 // only while every go-upf goroutine is durably blocked (after synctest.Wait).
 
-import "sort"
+import (
+	"reflect"
+	"sort"
+)
+
+// sizeOf: the number of entries of a session's rule-id set, whatever container go-upf keeps
+// it in today (a map, a slice, or a type with a Len method). The accessors must not make
+// the check unbuildable when a container is refactored: -1 = shape unknown (only the
+// coverage hash uses these numbers).
+func sizeOf(v any) int {
+	rv := reflect.ValueOf(v)
+	switch rv.Kind() {
+	case reflect.Map, reflect.Slice, reflect.Array, reflect.Chan:
+		return rv.Len()
+	}
+	if m := rv.MethodByName("Len"); m.IsValid() && m.Type().NumIn() == 0 && m.Type().NumOut() == 1 {
+		if out := m.Call(nil); out[0].CanInt() {
+			return int(out[0].Int())
+		}
+	}
+	return -1
+}
 
 type VerifSess struct {
 	LocalID  uint64
@@ -15,11 +36,11 @@ type VerifSess struct {
 	NodeAddr string
 	QLens    map[uint16]int
 	URRSeq   map[uint32]uint32
-	PDRs     []uint16
-	FARs     []uint32
-	QERs     []uint32
+	PDRs     int
+	FARs     int
+	QERs     int
 	URRs     []uint32
-	BARs     []uint8
+	BARs     int
 }
 
 type VerifState struct {
@@ -67,23 +88,8 @@ func (s *PfcpServer) VerifState() VerifState {
 			v.URRSeq[id] = u.SEQN
 			v.URRs = append(v.URRs, id)
 		}
-		for id := range x.PDRIDs {
-			v.PDRs = append(v.PDRs, id)
-		}
-		for id := range x.FARIDs {
-			v.FARs = append(v.FARs, id)
-		}
-		for id := range x.QERIDs {
-			v.QERs = append(v.QERs, id)
-		}
-		for id := range x.BARIDs {
-			v.BARs = append(v.BARs, id)
-		}
-		sort.Slice(v.PDRs, func(i, j int) bool { return v.PDRs[i] < v.PDRs[j] })
-		sort.Slice(v.FARs, func(i, j int) bool { return v.FARs[i] < v.FARs[j] })
-		sort.Slice(v.QERs, func(i, j int) bool { return v.QERs[i] < v.QERs[j] })
+		v.PDRs, v.FARs, v.QERs, v.BARs = sizeOf(x.PDRIDs), sizeOf(x.FARIDs), sizeOf(x.QERIDs), sizeOf(x.BARIDs)
 		sort.Slice(v.URRs, func(i, j int) bool { return v.URRs[i] < v.URRs[j] })
-		sort.Slice(v.BARs, func(i, j int) bool { return v.BARs[i] < v.BARs[j] })
 		st.Sess = append(st.Sess, v)
 	}
 	for id, n := range s.rnodes {
